@@ -11,15 +11,17 @@ PROPERTIES = {
     "C04": {
         "text": "Coq model of the scanner subset and of every parseFrom (one-token lookahead, whitespace-mode switches, "
                 "multi-line strings, numeric helpers); theorems (Properties/C04.v): parse_print_partial = parse (print ds) = Ok "
-                "(elaborate ds) for every list of well-formed VERSION, BS_, BU_, BO_ with SG_ lines (plain/M/m<k>) and unknown-line "
-                "definitions in the plain layout (any count and order; positions included), unknown_one (an unknown line yields one "
+                "(elaborate ds) for every well-formed file over all 16 dispatching kinds (top-level SG_ excepted) and unknown lines "
+                "in the plain layout (any count and order; positions included; number literals with fraction and exponent; "
+                "strings with escaped quotes and backslashes; CM_ texts over several lines; BA_DEF_DEF_/BA_ typed by the first "
+                "earlier BA_DEF_), unknown_one (an unknown line yields one "
                 "UnknownDef and does not change how the following lines are parsed), and refutations of the pre-fix discardLine (F8) "
                 "and BS_ (F9). On every run a grammar-based generator (all 16 definition kinds + unknown lines, layout variants) "
                 "produces texts with the definitions they denote; implementation, extracted model and expectation are compared "
                 "three ways; P = implementation equals expectation.",
-        "note": _NOTE + " The round-trip theorem is proved for 5 of the 17 kinds and the plain layout only (statement and list of "
-                        "what is not covered in Properties/C04.v); the remaining kinds and layouts are covered by the three-way "
-                        "differential run, which samples the grammar.",
+        "note": _NOTE + " The round-trip theorem is proved for the plain layout only (single spaces, LF; statement and list of "
+                        "what is not covered - top-level SG_, UTF-8 in strings, line ends in strings other than CM_ texts, the other "
+                        "layouts - in Properties/C04.v); those are covered by the three-way differential run, which samples the grammar.",
         "technique": "Coq proof about a Gallina model + differential correspondence of model, code and generator-side denotation",
         "design_ref": "5.4",
     },
@@ -27,7 +29,7 @@ PROPERTIES = {
         "text": "Coq theorem parse_total (Properties/C12.v): for EVERY byte list and every non-ASCII classification the model "
                 "parser with fuel length+4 returns Ok or Err with a position inside the input, never Panic (no index operation "
                 "fails) and never OutOfFuel (every loop iteration consumes input); determinism is functional-ness; "
-                "error_local_partial: after well-formed VERSION/BS_/BU_/BO_+SG_/unknown definitions (plain layout) followed by any "
+                "error_local_partial: after a well-formed file prefix (all kinds of C04's round trip, plain layout) followed by any "
                 "bytes that still begin with a keyword, an error is positioned inside those bytes and Defs() extends the "
                 "definitions of the prefix. Locality on the implementation: generated files (all kinds, all layouts) x definition "
                 "index x corruption operators (error not before the corrupted definition, Defs() = the preceding definitions), "
@@ -55,7 +57,15 @@ RULES = {
            "unterminated string, oversized number, keyword replaced by $, keyword replaced by NUL / 0xFF / truncated 2-byte "
            "sequence (illegal-first-byte, counted per kind of the preceding definition; the witness BO_ 1 M: 8 N\\n\\x00 first)}; (b) c12b-<generator>-<outcome>: grammar outputs with 1-3 byte "
            "edits, inserted invalid UTF-8/NUL/BOM, huge and malformed numbers, deep repetition (200..1700 fragments), random bytes, "
-           "random DBC-alphabet text, token soup, integer-conversion probes; non-trivial = error or at least one definition; "
+           "random DBC-alphabet text, token soup, integer-conversion probes; (c) c12b-tokmut-<kind>-<outcome>: grammar-aware token "
+           "mutations (harness/parser/tokmut.go): 43 fixed well-formed instances covering every definition kind and form (BA_DEF_DEF_ / BA_ "
+           "after the five BA_DEF_ types), each single token in turn replaced by each of 110 boundary tokens (m M m0 mM m1M m-1 "
+           "m9..9, single letters, - + . e 0x 1e 1e+ 00 -0, \"\" and unterminated strings, identifiers of 128/129 chars, every "
+           "punctuation character, 2047/2048, 2^31, 2^32, 2^53, 2^63, 2^64 and neighbours, 1e400, enumeration names, NUL/0xFF/"
+           "truncated UTF-8/BOM, every DBC keyword), deleted, duplicated; variants: alone / followed by another definition / input "
+           "ends right after the changed token; quick = every triple at the SG_ multiplexer position (alone and at the end of the "
+           "input), the attribute value / range positions, enum indices and message ids plus one in 8 of the others chosen by the "
+           "seed, thorough = every triple in all three variants (~113000); non-trivial = error or at least one definition; "
            "distinct by text hash",
 }
 
@@ -64,8 +74,11 @@ ASSUME = [
     "pkg/dbc/parser.go, def.go and strconv: checked on every run by the differential comparison on generated inputs (sampled)",
     "unicode.IsLetter/IsDigit for runes >= 128 enter the model as a parameter (theorems hold for every classification); the driver "
     "fills it with Go's own tables printed by the harness",
-    "strconv.ParseFloat is the correctly rounded decimal/hex -> binary64 conversion (differentially tested by the num stream; "
-    "deviation possible only for > 800 significant digits, see Dbc/DecFloat.v)",
+    "strconv.ParseFloat is the correctly rounded decimal/hex -> binary64 conversion: the model's conversion of (mantissa, "
+    "exponent) is PROVED to be round-to-nearest-even of the exact value with overflow to ErrRange (Properties/C04.v "
+    "C04_decimal_correctly_rounded, C04_hexadecimal_correctly_rounded, C04_bits_are_ieee754, via Flocq); that Go's readFloat "
+    "syntax analysis, its dp > 310 / dp < -330 shortcuts and its Eisel-Lemire/slow-path algorithms agree with it is tested "
+    "differentially by the num stream (deviation possible only for > 800 significant digits, see Dbc/DecFloat.v)",
     "int64(float64) for the value 2^63 behaves as on amd64 (MinInt64)",
 ]
 
@@ -110,7 +123,8 @@ def make_known_matcher(counts):
 def harness_args(pid, tier, seed):
     if pid == "C04":
         return ["c04", seed] + ([6000, 40] if tier == "quick" else [60000, 40])
-    return ["c12", seed] + ([170, 25, 22000] if tier == "quick" else [3000, 30, 400000])
+    # files, max definitions, random cases, token-mutation stride (0 = every triple in every variant)
+    return ["c12", seed] + ([170, 25, 14000, 8] if tier == "quick" else [3000, 30, 400000, 0])
 
 
 def run(res, replay=None):
